@@ -379,6 +379,118 @@ void t_stimer(Src &s, Case &c)
     c.nontrivial = fired >= 2;
 }
 
+// The manager instantiated with an unsigned clock (timer_spec<uint32_t>: a free-running 32-bit tick counter, the usual
+// time base on a microcontroller). Starts are never later than the current time (with an unsigned difference a start in
+// the future is indistinguishable from a long-elapsed one), callbacks only record.
+struct UFire
+{
+    int id;
+    uint32_t deadline;
+};
+static std::vector<UFire> g_ufired;
+static std::vector<igris::timer_basic<igris::timer_spec<uint32_t>, int> *> *g_utims;
+static void ufire(int id) { g_ufired.push_back(UFire{id, (uint32_t)(*g_utims)[(size_t)id]->finish()}); }
+void t_timer_manager_u32(Src &s, Case &c)
+{
+    typedef igris::timer_spec<uint32_t> Spec;
+    typedef igris::timer_basic<Spec, int> Tim;
+    int n = (int)s.range(1, 4);
+    auto *mgr = new igris::timer_manager_basic<Spec>; // leaked on failure
+    auto *tims = new std::vector<Tim *>;
+    g_utims = tims;
+    struct R
+    {
+        bool planned = false;
+        uint32_t start = 0, interval = 1;
+    };
+    std::vector<R> ref((size_t)n);
+    for (int i = 0; i < n; i++)
+        tims->push_back(new Tim(igris::make_delegate(ufire), (int)i));
+    uint32_t now = (uint32_t)s.pick<uint32_t>({1000u, 0x7FFFFF00u, 0xFFFFF000u}); // also across 2^31 and the 2^32 wrap
+    int nops = (int)s.range(1, 30);
+    c.log("u32 clock, %d timers, t0=%u: ", n, now);
+    bool fired_any = false;
+    for (int k = 0; k < nops; k++)
+    {
+        int id = (int)s.below((uint64_t)n);
+        switch (s.weighted({4, 2, 4}))
+        {
+        case 0:
+        {
+            uint32_t interval = (uint32_t)s.pick({1, 2, 5, 10, 50});
+            uint32_t start = now - (uint32_t)s.pick({0, 0, 1, 5, 9, 30});
+            c.log("plan(t%d,%u,%u) ", id, start, interval);
+            mgr->plan(*(*tims)[(size_t)id], start, interval);
+            ref[(size_t)id] = R{true, start, interval};
+            break;
+        }
+        case 1:
+            c.log("unplan(t%d) ", id);
+            (*tims)[(size_t)id]->unplan();
+            ref[(size_t)id].planned = false;
+            break;
+        default:
+        {
+            now += (uint32_t)s.pick({0, 1, 4, 10, 25, 120});
+            c.log("exec(%u) ", now);
+            g_ufired.clear();
+            mgr->exec(now);
+            // reference: while some planned timer is due, the one with the earliest deadline fires and is re-armed one period later
+            std::vector<UFire> want;
+            for (;;)
+            {
+                int best = -1;
+                for (int i = 0; i < n; i++)
+                    if (ref[(size_t)i].planned && now - ref[(size_t)i].start >= ref[(size_t)i].interval)
+                        if (best < 0 || (uint32_t)(ref[(size_t)i].start + ref[(size_t)i].interval - now) + 0u < (uint32_t)(ref[(size_t)best].start + ref[(size_t)best].interval - now) + 0u ||
+                            (int32_t)((ref[(size_t)i].start + ref[(size_t)i].interval) - (ref[(size_t)best].start + ref[(size_t)best].interval)) < 0)
+                            best = i;
+                if (best < 0)
+                    break;
+                want.push_back(UFire{best, ref[(size_t)best].start + ref[(size_t)best].interval});
+                ref[(size_t)best].start += ref[(size_t)best].interval;
+                if (want.size() > 100000)
+                    break;
+            }
+            // compare as multisets of (timer, deadline) and demand non-decreasing deadlines (relative to now) in the real order
+            auto key = [](const UFire &f) { return ((uint64_t)(uint32_t)f.id << 32) | f.deadline; };
+            std::vector<uint64_t> a, b;
+            for (auto &f : g_ufired)
+                a.push_back(key(f));
+            for (auto &f : want)
+                b.push_back(key(f));
+            std::sort(a.begin(), a.end());
+            std::sort(b.begin(), b.end());
+            VP_CHECK(a == b, "u32_timer_firings", "exec(%u) fired %zu callbacks, the reference scheduler %zu (a due timer was skipped, or one fired early or twice)", now,
+                     g_ufired.size(), want.size());
+            for (size_t i = 1; i < g_ufired.size(); i++)
+                VP_CHECK((int32_t)(g_ufired[i].deadline - g_ufired[i - 1].deadline) >= 0, "u32_timer_order", "exec(%u): deadline %u served after deadline %u", now,
+                         g_ufired[i].deadline, g_ufired[i - 1].deadline);
+            if (g_ufired.size() >= 2)
+                fired_any = true;
+            break;
+        }
+        }
+        for (int i = 0; i < n; i++)
+        {
+            Tim *t = (*tims)[(size_t)i];
+            VP_CHECK(t->is_planned() == ref[(size_t)i].planned, "u32_timer_planned", "t%d is_planned()=%d, reference %d", i, (int)t->is_planned(), (int)ref[(size_t)i].planned);
+            if (ref[(size_t)i].planned)
+                VP_CHECK((uint32_t)t->finish() == ref[(size_t)i].start + ref[(size_t)i].interval, "u32_timer_deadline", "t%d deadline %u, reference %u", i, (uint32_t)t->finish(),
+                         ref[(size_t)i].start + ref[(size_t)i].interval);
+        }
+    }
+    c.nontrivial = fired_any;
+    for (auto *t : *tims)
+    {
+        t->unplan();
+        delete t;
+    }
+    delete tims;
+    delete mgr;
+    g_utims = nullptr;
+}
+
 void t_timer_manager_big(Src &s, Case &c)
 {
     g_tm_scale = (int64_t)s.pick<int64_t>({1LL << 28, 1LL << 31, (1LL << 33) + 1});
@@ -403,6 +515,10 @@ void t_stimer_big(Src &s, Case &c)
 
 } // namespace
 
+VP_TARGET("timer_manager_u32", t_timer_manager_u32,
+          "timer_manager_basic<timer_spec<uint32_t>> (unsigned 32-bit clock starting at 1000, just below 2^31 or just below the 2^32 wrap): plan with starts not later than now, "
+          "unplan, exec with non-decreasing time; the (timer, deadline) firings of every exec equal those of a reference scheduler and come in deadline order; planned flags and "
+          "deadlines after every operation; non-trivial = an exec fired at least two callbacks");
 VP_TARGET("timer_manager_big", t_timer_manager_big,
           "the timer_manager histories with every interval, start offset, script offset and time step multiplied by 2^28, 2^31 or 2^33+1 and the clock starting "
           "near 2^31, 2^32 or at 2^40 (deadlines and elapsed times that do not fit 32 bits); same reference scheduler and checks");
